@@ -646,6 +646,11 @@ def run_streams(ctx, gens):
             pass
 
 
+def capped(ctx, sample, cap=4):
+    """at most `cap` evidence samples per level (the evidence keeps 12 samples in all)"""
+    return sample if sum(1 for s_ in ctx.samples if isinstance(s_, dict) and s_.get('level') == sample.get('level')) < cap else None
+
+
 def fail_corr(ctx, key, name, what, X, expect, mode=None, gname=None):
     ctx.violation(key, f'dataset {name}: {what}',
                   {'dataset': name, 'X': np.asarray(X).tolist(), 'what': what, 'mode': mode, 'grid': gname,
@@ -740,7 +745,7 @@ def corr_l1(ctx, ds, quick):
                 agree = res[0] == 'ok' and res[1] == mo[1] and res[2] == mo[2] and close_f(res[3], mo[3])
                 expect = {'result': mo}
             ctx.obligation(f'corr:L1:select_copula:{name}', agree, 'correspondence', f'model {mo} vs implementation {res}')
-            ctx.case(('L1', name), {'level': 'L1', 'dataset': name, 'n': len(X), 'tau': (rec['kt'] or [None])[0], 'impl': res[:4], 'model': mo},
+            ctx.case(('L1', name), capped(ctx, {'level': 'L1', 'dataset': name, 'n': len(X), 'tau': (rec['kt'] or [None])[0], 'impl': res[:4], 'model': mo}),
                      nontrivial=True)
             n_ok += agree
             if not agree:
@@ -775,8 +780,8 @@ def corr_l1(ctx, ds, quick):
             if not ok_c:
                 fail_corr(ctx, f'corr:L1:candidates-disagree:{slug(name)}', name, f'candidate list: implementation {ic}, model {mc}', X,
                           {'cands': [(m[0], m[2]) for m in mc]})
-            ctx.case(('L1', name), {'level': 'L1', 'dataset': name, 'n': len(X), 'tau': tau, 'impl': rec['result'][:4],
-                                    'candidates': [(m[0], m[2]) for m in mc], 'len_z_left': len(iz[0]), 'len_z_right': len(iz[2])}, nontrivial=True)
+            ctx.case(('L1', name), capped(ctx, {'level': 'L1', 'dataset': name, 'n': len(X), 'tau': tau, 'impl': rec['result'][:4],
+                                                'candidates': [(m[0], m[2]) for m in mc], 'len_z_left': len(iz[0]), 'len_z_right': len(iz[2])}), nontrivial=True)
             n_ok += ok_z and ok_v and ok_c
             continue
         if stage == 'tails':
@@ -912,8 +917,8 @@ def corr_l2(ctx, l2):
             agree = res[0] == 'ok' and res[1] == mo[1] and res[2] == mo[2] and close_f(res[3], mo[3])
         ctx.obligation(f'corr:L2:select_copula:{name}', agree, 'correspondence', f'model {mo} vs implementation {res}; distances {rec.get("diffs")}')
         nan_scores = any(x != x for d in rec.get('diffs', []) for x in d)
-        ctx.case(('L2', name), {'level': 'L2', 'dataset': name, 'n': len(X), 'mode': mode, 'grid': gname, 'tau': rec['kt'][0],
-                                'candidates': [c[0] for c in rec['cands']], 'impl': res[:4], 'model': mo, 'nan_score': nan_scores}, nontrivial=True)
+        ctx.case(('L2', name), capped(ctx, {'level': 'L2', 'dataset': name, 'n': len(X), 'mode': mode, 'grid': gname, 'tau': rec['kt'][0],
+                                            'candidates': [c[0] for c in rec['cands']], 'impl': res[:4], 'model': mo, 'nan_score': nan_scores}), nontrivial=True)
         if nan_scores and agree and res[0] == 'ok':
             ctx.extra.setdefault('quirks_observed', {})[name] = f'D5 (under oracle substitution {mode}): a candidate with a nan score is selected: {res[1]}'
         n_ok += agree
